@@ -426,21 +426,19 @@ fn exhaustive_at(w: &mut CaseWriter, m0: &Module, name: &str, parent: &[u32], ar
     let mut h = Hist::new(&m);
     h.run(w, &mut m, &Op::Kids(p.clone(), arity + 2));
     h.run(w, &mut m, &Op::GetMut(idx.clone()));
-    if valid {
-        h.run(w, &mut m, &Op::Get(idx.clone()));
-    } else {
-        single(w, &m, &Op::Get(idx.clone()), "known.get_depth");
+    if !valid {
+        single(w, &m, &Op::Get(idx.clone()), "edge.get_nested_miss");
     }
+    h.run(w, &mut m, &Op::Get(idx.clone()));
     // replace, then replace back
     if let Some(old) = h.run(w, &mut m, &Op::Replace(idx.clone(), Card::string_card("X"))) {
         h.run(w, &mut m, &Op::Replace(idx.clone(), old));
     }
     // insert, then remove at the same index
     if is_call && i > arity {
-        single(w, &m, &Op::Insert(idx.clone(), int(55)), "known.call_insert");
-    } else {
-        h.run(w, &mut m, &Op::Insert(idx.clone(), int(55)));
+        single(w, &m, &Op::Insert(idx.clone(), int(55)), "edge.call_insert_oor");
     }
+    h.run(w, &mut m, &Op::Insert(idx.clone(), int(55)));
     h.run(w, &mut m, &Op::Remove(idx.clone()));
     // swap with a card of the same function, twice; with a card of another function, twice
     let other: Ix = (0, vec![0]);
@@ -458,11 +456,11 @@ fn exhaustive_at(w: &mut CaseWriter, m0: &Module, name: &str, parent: &[u32], ar
     // swap with itself
     let self_swap = Op::Swap(idx.clone(), idx.clone());
     if m.get_card(&mk(&idx)).is_ok() {
-        single(w, &m, &self_swap, "known.swap_same");
-        single(w, m0, &self_swap, "known.swap_same");
-    } else {
-        h.run(w, &mut m, &self_swap);
+        single(w, &m, &self_swap, "edge.swap_same");
+        single(w, m0, &self_swap, "edge.swap_same");
     }
+    h.run(w, &mut m, &self_swap);
+    h.run(w, &mut m, &Op::Walk);
     w.count(&format!("kind.{}", name.split('/').next().unwrap()));
     h.finish(w);
 }
@@ -711,20 +709,19 @@ fn random_case(rng: &mut Rng, w: &mut CaseWriter, depth: u32, budget: i32, len: 
             7 => Op::Kids(a, 5),
             _ => Op::ReplaceChild(a, rng.below(4) as usize, fresh),
         };
-        // calls in a known-finding class are issued as cases of their own, on a copy
+        // calls of the three formerly defective classes (A-25, A-26, A-41) are issued as cases of their own, on a
+        // copy, and then also as part of the history
         match &o {
             Op::Get(i) => {
                 if let Err(CardFetchError::CardNotFound { depth }) = m.get_card_mut(&mk(i)) {
                     if depth >= 1 {
-                        single(w, &m, &o, "known.get_depth");
-                        continue;
+                        single(w, &m, &o, "edge.get_nested_miss");
                     }
                 }
             }
             Op::Swap(x, y) if x == y => {
                 if m.get_card(&mk(x)).is_ok() {
-                    single(w, &m, &o, "known.swap_same");
-                    continue;
+                    single(w, &m, &o, "edge.swap_same");
                 }
             }
             Op::Insert(i, _) if i.1.len() >= 2 => {
@@ -736,8 +733,7 @@ fn random_case(rng: &mut Rng, w: &mut CaseWriter, depth: u32, budget: i32, len: 
                     _ => false,
                 };
                 if hit {
-                    single(w, &m, &o, "known.call_insert");
-                    continue;
+                    single(w, &m, &o, "edge.call_insert_oor");
                 }
             }
             _ => {}
